@@ -649,12 +649,15 @@ class Env:
                 "TheoryException": "raised:theory", "ToyErr1": "raised:other1", "ToyErr2": "raised:other2"}.get(n, "raised:" + n)
 
     # ---- calls into the implementation
-    def check(self, case):
-        """case = {cfg: [no_gaps, compute_only, level], thms: [[name, seq]…], items: […]} -> canonical result."""
+    def check(self, case, reuse=False, with_rpt=True):
+        """case = {cfg: [no_gaps, compute_only, level], thms: [[name, seq]…], items: […]} -> canonical result.
+        reuse=True: the call is made on the Theory object of the previous call (a history on one
+        object); with_rpt=False: no ProofReport is passed (gaps / counters are then unknown: None)."""
         ng, co, lvl = case["cfg"]
-        self.fresh_theory(case["thms"])
+        if not reuse:
+            self.fresh_theory(case["thms"])
         prf = self.proof(case["items"], case.get("graph"))
-        rpt = self.report.ProofReport()
+        rpt = self.report.ProofReport() if with_rpt else None
         self.log = []
         try:
             with time_limit(30):
@@ -665,14 +668,17 @@ class Env:
             if isinstance(e, (KeyboardInterrupt, SystemExit)):
                 raise
             return ("err", self.err_class(e))
+        if rpt is None:
+            return ("ok", self.dec(th), self.tree(prf), None, sorted(self.log), None)
         toy = lambda names: sorted(n for n in names if toy_kind(n) is not None)
         counts = (rpt.thm_steps, rpt.prim_steps, rpt.macro_steps, toy(rpt.macros_eval), toy(rpt.macros_expand),
                   rpt.steps == rpt.thm_steps + rpt.prim_steps + rpt.macro_steps)
         return ("ok", self.dec(th), self.tree(prf), [self.dec(g) for g in rpt.gaps], sorted(self.log), counts)
 
-    def extend(self, case):
+    def extend(self, case, reuse=False):
         """case = {thms, exts: [["thm", name, seq, items|None] | "other"]} -> (theorems, axioms, err)."""
-        self.fresh_theory(case["thms"])
+        if not reuse:
+            self.fresh_theory(case["thms"])
         exts = []
         for k, x in enumerate(case["exts"]):
             if x == "other":
@@ -1644,12 +1650,19 @@ def gen_extend_pool(rng, n):
     proofs.append([[[0], "", None, [], [[], 0], None]])
     proofs.append([[[0], "theorem", "verif_t0", [], None, None]])
     proofs.append([[[0], "verif_ax", [[], 0], [], [[], 1], None]])
+    # proofs that conclude NOTHING (check_proof returns None): ending in an empty line, alone / after
+    # genuine steps / after a block; such a proof proves no stated theorem whatsoever
+    proofs.append([[[0], "", None, [], None, None]])
+    proofs.append([[[0], "verif_ax", [[], 0], [], None, None], [[1], "verif_id", None, [[0]], None, None], [[2], "", None, [], None, None]])
+    proofs.append([[[0], "subproof", None, [], None, [[[0, 0], "verif_ax", [[], 2], [], None, None]]], [[1], "", None, [], None, None]])
+    directed = len(proofs)
     while len(proofs) < n:
         case, _ = g.case()
         proofs.append(case["items"])
     while len(thms) < n:
         thms.append(g.seq())
-    return thms[:n], proofs[:n]
+    # the directed proofs are never cut off by a small pool size (quick tier)
+    return thms[:n], proofs[:max(n, directed)]
 
 
 # =============================================================================================
@@ -1663,13 +1676,23 @@ def stream_check(ctx, env, cases, label, oracle=True, heap=False):
     ndis = 0
     if heap and cases:
         hout = ctx.lean_driver(EXE, [line_hcheck(c) for c in cases], timeout=3000)
-        nh = 0
+        nh = nu = 0
         if hout is None:
             ctx.broken("correspondence:c02:driver", "model driver unavailable")
         else:
             for idx, case in enumerate(cases):
                 hm = parse_hcheck(hout[idx], case["cfg"][2], case)
                 ctx.count("heap:%s" % label)
+                # the open statement GraphCheckEqUnfolding (PropsUnfold.lean) on this graph: heap walk
+                # and tree model on Lean's own unfolding fail together / accept with the same outputs
+                if hout[idx].endswith(" F)"):
+                    nu += 1
+                    if nu <= 3:
+                        ctx.broken("correspondence:c02:unfolding:%s" % label, "heap model and tree model on the unfolding differ: case=%s heap-model=%s" % (json.dumps(case), hm))
+                elif hout[idx].endswith(" T)"):
+                    ctx.count("unfolding-agrees:%s" % hm[0])
+                elif hout[idx].endswith(" S)"):
+                    ctx.count("unfolding-too-large(skipped)")
                 if not same_heap_result(hm, impl[idx]):
                     nh += 1
                     if nh <= 3:
@@ -1848,7 +1871,7 @@ def stream_real(ctx, env):
     implies_intr / implies_elim / substitution {} / sorry / subproof; every item states its sequent,
     then one citation or one id is perturbed.  Accepted => an independent replay (positions,
     visibility, `primitive_deriv` applied to sequents the replay verified itself) must succeed."""
-    from kernel.term import Var, Implies, Inst
+    from kernel.term import Var, Implies, Inst, Eq
     from kernel.thm import Thm, primitive_deriv
     from kernel.type import BoolType
     theory, Proof, ProofItem = env.theory, env.Proof, env.ProofItem
@@ -1912,7 +1935,15 @@ def stream_real(ctx, env):
                             return ("cites-negative-index" if any(x < 0 for x in c) else "cites-itself" if c == pos
                                     else "cites-forward" if c > pos else "cites-unverified-or-closed")
                     try:
-                        f = primitive_deriv[rule][0]
+                        f, sig = primitive_deriv[rule]
+                    except Exception:
+                        return "rule-failed"
+                    # a sequent reaches a rule only as a VERIFIED citation: a rule that takes no argument
+                    # given one (a Thm nobody derived, used as the first premise), or an argument that is
+                    # itself a sequent, is a step justified from something never verified
+                    if isinstance(args, Thm) or (sig is None and args is not None):
+                        return "unverified-argument-as-premise"
+                    try:
                         comp = f(*prem) if args is None else f(args, *prem)
                     except Exception:
                         return "rule-failed"
@@ -1935,6 +1966,8 @@ def stream_real(ctx, env):
             opts = ["assume"]
             if known:
                 opts += ["intr", "subst"]
+                if rng.random() < 0.15:
+                    opts += ["smuggle"]
             imps = [(p, q) for p in known for q in known if known[p].prop.is_implies() and known[p].prop.arg1 == known[q].prop]
             if imps:
                 opts += ["elim", "elim"]
@@ -1949,6 +1982,20 @@ def stream_real(ctx, env):
             elif o == "subst":
                 p = rng.choice(list(known))
                 rule, args, prevs, comp = "substitution", Inst(), [p], known[p]
+            elif o == "smuggle":
+                # near-miss argument: a rule WITHOUT argument is handed an underived sequent as argument
+                # and cites one item fewer than it needs (the argument would take the premise's place)
+                q = rng.choice(list(known))
+                w = rng.randrange(3)
+                if w == 0:
+                    a = Thm(Implies(known[q].prop, rng.choice(V + [false])))
+                    rule, args, prevs, comp = "implies_elim", a, [q], Thm.implies_elim(a, known[q])
+                elif w == 1:
+                    a = Thm(Eq(known[q].prop, rng.choice(V + [false])))
+                    rule, args, prevs, comp = "equal_elim", a, [q], Thm.equal_elim(a, known[q])
+                else:
+                    a = Thm(Eq(rng.choice(V), false))
+                    rule, args, prevs, comp = "symmetric", a, [], Thm.symmetric(a)
             else:
                 p, q = rng.choice(imps)
                 rule, args, prevs, comp = "implies_elim", None, [p, q], Thm.implies_elim(known[p], known[q])
@@ -1970,6 +2017,19 @@ def stream_real(ctx, env):
         ("var-stated-other-var", [[[0], "variable", ("x", TVar("a")), [], Thm.mk_VAR(Var("y", TVar("a"))), None]]),
         ("var-stated-exact", [[[0], "variable", ("x", TVar("a")), [], Thm.mk_VAR(Var("x", TVar("a"))), None]]),
         ("var-unstated", [[[0], "variable", ("x", TVar("a")), [], None, None]]),
+        # argument-less rules handed a sequent as argument, one citation short / none at all / full list
+        ("argless-elim-thm-arg", [[[0], "assume", V[0], [], None, None],
+                                  [[1], "implies_elim", Thm(Implies(V[0], false)), [[0]], None, None]]),
+        ("argless-elim-thm-arg-full", [[[0], "assume", Implies(V[0], V[1]), [], None, None], [[1], "assume", V[0], [], None, None],
+                                       [[2], "implies_elim", Thm(Implies(V[0], false)), [[0], [1]], None, None]]),
+        ("argless-symmetric-thm-arg", [[[0], "symmetric", Thm(Eq(V[0], false)), [], None, None]]),
+        ("argless-equal-elim-thm-arg", [[[0], "assume", V[0], [], None, None],
+                                        [[1], "equal_elim", Thm(Eq(V[0], false)), [[0]], None, None]]),
+        ("argless-transitive-thm-arg", [[[0], "assume", Eq(V[1], V[2]), [], None, None],
+                                        [[1], "transitive", Thm(Eq(V[0], V[1])), [[0]], None, None]]),
+        ("argless-nested-thm-arg", [[[0], "subproof", None, [], None, [[[0, 0], "assume", V[0], [], None, None],
+                                    [[0, 1], "implies_elim", Thm(Implies(V[0], false)), [[0, 0]], None, None]]]]),
+        ("arg-rule-thm-arg", [[[0], "assume", Thm(false), [], None, None]]),
     ]
     cases = [(n, its) for n, its in fixed]
     shared_cases = []
@@ -2036,6 +2096,133 @@ def stream_real(ctx, env):
                               {"kind": "real", "name": name, "no_gaps": ng, "proof": str(prf), "reason": why})
 
 
+def run_history(ctx, env, hist):
+    """Several check_proof / checked_extend calls on ONE Theory object (different flags, with and
+    without a report, proofs that share macro steps).  Every verdict is judged by the reference
+    checker as if it were the first call on a fresh object: what an earlier call left behind in the
+    Theory (or anywhere else) must not make a later call accept something unjustified."""
+    env.fresh_theory(hist["thms"])
+    for k, call in enumerate(hist["calls"]):
+        sofar = {"thms": hist["thms"], "calls": hist["calls"][:k + 1]}
+        if call["op"] == "check":
+            case = {"cfg": call["cfg"], "thms": hist["thms"], "items": call["items"]}
+            res = env.check(case, reuse=True, with_rpt=call["rpt"])
+            ctx.count("history:check:%s" % (res[0] if res[0] == "ok" else "refused"))
+            if res[0] != "ok":
+                continue
+            ng, co, lvl = call["cfg"]
+            first = None
+            for keep in ("stated", "computed"):
+                bad = None
+                try:
+                    final, gaps, final_comp = ref_check(case["items"], case["thms"], ng, lvl, keep=keep, compute_only=co)
+                    if res[1] is not None and not any(x is not None and ref_can_prove(x, res[1]) for x in (final, final_comp)):
+                        bad = ("result-not-verified", "returned %s, replay gives %s (computed %s)" % (res[1], final, final_comp))
+                    elif ng and (gaps or res[3]):
+                        bad = ("gap-tolerated-with-no-gaps", "placeholders present %s with no_gaps" % (gaps,))
+                    elif res[3] is not None and sorted(gaps) != sorted(res[3]):
+                        bad = ("gaps-misreported", "reported %s, placeholders present %s" % (res[3], gaps))
+                except Flag as f:
+                    bad = (f.cls, f.detail)
+                if bad is None:
+                    first = None
+                    break
+                first = first or bad
+            if first:
+                ctx.violation("accepted:" + first[0],
+                              "call %d of a history on one Theory object: check_proof accepted a proof that is not justified (%s: %s)" % ((k,) + first),
+                              {"kind": "history", "history": sofar, "reason": first[0]})
+                return True
+        else:
+            case = {"thms": hist["thms"], "exts": [["thm", call["name"], call["seq"], call["items"]]]}
+            installed, axioms, err = env.extend(case, reuse=True)
+            ctx.count("history:extend:%s" % ("refused" if err else "installed"))
+            if err or call["name"] not in getattr(env, "last_installed", []):
+                continue
+            st = mk(call["seq"][0], call["seq"][1])
+            reason = None
+            try:
+                final, gaps, _ = ref_check(call["items"], hist["thms"], True, 0)
+                if gaps:
+                    reason = "has-gaps"
+                elif final is None or not ref_can_prove(final, st):
+                    reason = "wrong-conclusion"
+            except Flag as f:
+                reason = "proof-not-justified:" + f.cls
+            if reason:
+                ctx.violation("extend:admitted-unproved:" + reason,
+                              "call %d of a history on one Theory object: checked_extend admitted %s : %s as proved, but %s" % (k, call["name"], st, reason),
+                              {"kind": "history", "history": sofar, "reason": reason})
+                return True
+            return False      # the theory changed: the history ends here
+    return False
+
+
+def gen_histories(rng, n):
+    """Histories over small proofs that share macro steps: expanded macros (level 1 / 2) whose
+    expansion holds a placeholder, a genuine step, another expanded macro, or cites an earlier line."""
+    def exp_arg(kind, c):
+        if kind == "gap":
+            return [[[], c], [[[0, 0], "sorry", None, [], [[], c], None]]]
+        if kind == "ok":
+            return [[[], c], [[[0, 0], "verif_ax", [[], c], [], None, None]]]
+        if kind == "nest-gap":
+            return [[[], c], [[[0, 0], "verif_exp", exp_arg("gap", c), [], None, None]]]
+        if kind == "nest-ok":
+            return [[[], c], [[[0, 0], "verif_exp", exp_arg("ok", c), [], None, None]]]
+        return [[[], c], [[[0, 0], "verif_id", None, [[2, 0]], None, None]]]      # cites the macro's first premise
+
+    def proof():
+        items, concl = [], []
+        for k in range(rng.randint(1, 3)):
+            c = rng.randrange(2)
+            w = rng.random()
+            if w < 0.2 or (w > 0.85 and not concl):
+                items.append([[k], "verif_ax", [[], c], [], None, None])
+            elif w < 0.85:
+                kind = rng.choice(["gap", "gap", "ok", "nest-gap", "nest-ok"])
+                rule = "verif_exp2" if kind.startswith("nest") or rng.random() < 0.3 else "verif_exp"
+                items.append([[k], rule, exp_arg(kind, c), [], [[], c] if rng.random() < 0.3 else None, None])
+            else:
+                j = rng.randrange(len(concl))
+                c = concl[j]
+                items.append([[k], rng.choice(["verif_exp", "verif_exp2"]), exp_arg("cite", c), [[j]], None, None])
+            concl.append(c)
+        return items, concl[-1]
+    out = []
+    base = [["verif_t0", [[], 0]], ["verif_t1", [[], 1]]]
+    for i in range(n):
+        pool = [proof() for _ in range(rng.randint(1, 3))]
+        calls = []
+        if i % 3 == 0:
+            # an editor's history: the proof under development is checked with gaps allowed, then strictly
+            items, c = pool[0]
+            lvl = rng.randrange(2)
+            calls.append({"op": "check", "items": items, "cfg": [False, False, lvl], "rpt": rng.random() < 0.3})
+            calls.append({"op": "check", "items": items, "cfg": [True, False, lvl], "rpt": rng.random() < 0.3})
+        for _ in range(rng.randint(1, 4)):
+            items, c = rng.choice(pool)
+            calls.append({"op": "check", "items": items,
+                          "cfg": [rng.random() < 0.5, rng.random() < 0.15, rng.choice([0, 0, 1, 2, 3])], "rpt": rng.random() < 0.4})
+        if rng.random() < 0.6:
+            items, c = rng.choice(pool)
+            calls.append({"op": "extend", "name": "verif_h", "seq": [[], c if rng.random() < 0.85 else 1 - c], "items": items})
+        out.append({"thms": base, "calls": calls})
+    return out
+
+
+def stream_history(ctx, env):
+    hs = gen_histories(ctx.rng("history"), ctx.scale(400, 5000))
+    nviol = 0
+    for h in hs:
+        ctx.case(("history", json.dumps(h, sort_keys=True)), nontrivial=len(h["calls"]) >= 2)
+        if run_history(ctx, env, h):
+            nviol += 1
+            if nviol >= 3:
+                break
+    ctx.log("stream history: %d histories on one Theory object each, %d flagged" % (len(hs), nviol))
+
+
 def corpus_cases(ctx):
     p = os.path.join(ctx.verif, "corpus", "c02.json")
     if os.path.exists(p):
@@ -2078,9 +2265,9 @@ def run(ctx):
         ctx.broken("translate:c02:itemid", "untranslatable: %s" % e)
     except Exception as e:  # noqa
         ctx.broken("translate:c02:itemid", "untranslatable: %r" % e)
-    proofs_ok = ctx.lean_props(["Holpy.C02.Props", "Holpy.C02.PropsHeap"], exes=[EXE])
+    proofs_ok = ctx.lean_props(["Holpy.C02.Props", "Holpy.C02.PropsHeap", "Holpy.C02.PropsUnfold"], exes=[EXE])
     if ctx.tier == "thorough" and proofs_ok:
-        ctx.lean_check_modules(["Holpy.C02.Props", "Holpy.C02.PropsHeap"])
+        ctx.lean_check_modules(["Holpy.C02.Props", "Holpy.C02.PropsHeap", "Holpy.C02.PropsUnfold"])
     ctx.coverage["trusted_base"] += [
         "correspondence harness harness/props/c02.py (generators, toy rule set mirrored in Holpy/C02/Toy.lean, reference checker)",
         "Python->Lean translator for ItemID / Thm.can_prove (in harness/props/c02.py) and the Python primitives of Holpy/C02/Py.lean",
@@ -2195,6 +2382,7 @@ def run(ctx):
                 cur[nm] = c      # optimistic; a refused extension ends the run anyway
             ocases.append({"thms": base, "exts": exts})
         stream_extend(ctx, env, ocases, "extend-overwrite")
+        stream_history(ctx, env)
     finally:
         if env is not None:
             env.close()
@@ -2213,6 +2401,8 @@ def replay(ctx, rp):
             res = env.extend(r["case"])
             print("implementation:", res)
             judge_extend(ctx, env, r["case"], res)
+        elif r.get("kind") == "history":
+            run_history(ctx, env, r["history"])
         elif r.get("kind") == "real":
             # the real-rule stream is regenerated from the seed; the recorded proof text is for the reader
             stream_real(ctx, env)
@@ -2240,21 +2430,34 @@ MANIFEST = {
             "under can_depend_on only to entries walked before); report_counts_exact (ProofReport counters as derived from the trace; "
             "compared with rpt on every run); ItemID facts (can_depend_on irreflexive, transitive, precedes in document order, resolves only to "
             "visible positions) about definitions translated from kernel/proof.py and kernel/thm.py on every run, with proofs that do not "
-            "follow the shape of the generated code. NOT PROVED: graph_check_eq_unfolding / graph_accept_implies_unfolding_accept (heap walk on a graph vs tree model on "
-            "its unfolding): the soundness they were meant to transfer is proved on the heap model itself (heap_accepted_justified); that on "
+            "follow the shape of the generated code; graph_find_eq_unfolding (the unfolding of an object graph is now a Lean definition, "
+            "Unfold.lean: value tree cut at the depth the fuel allows; find_item on the graph and on the unfolding fail together or find "
+            "the unfolding of the same object, for every id: static, before any write). NOT PROVED: graph_check_eq_unfolding (heap walk on a "
+            "graph vs tree model on its unfolding, with the writes of the walk): attempted this session and not finished (a lock-step "
+            "simulation needs an invariant relating the mutated tree to the mutated heap along the walked spine, plus the frame lemmas of "
+            "both models; see report) -- it is now STATED in Lean (def GraphCheckEqUnfolding: fail together or accept with the same theorem, "
+            "gaps and trace, fuel <= 64), decided on two pinned instances (graph_check_eq_unfolding_examples) and evaluated by the driver on "
+            "these very definitions for every graph of the heap streams whose unfolding has at most 3000 items (a single F answer breaks the tie; larger ones are counted as skipped); the soundness it was meant to "
+            "transfer is proved on the heap model itself (heap_accepted_justified); that on "
             "the heap the uncomputed statements are exactly the reported gaps when not compute_only, and rpt.th_names, are not proved; the "
-            "agreement of the two models stays tied three ways on every run (implementation on the graph, heap model on the graph, tree model on the "
-            "unfolding). TIE: differential runs on generated proof objects over a toy rule set (exhaustive small shapes + random; ids != "
+            "agreement of the two models also stays tied three ways on every run (implementation on the graph, heap model on the graph, tree model on the "
+            "harness's unfolding). TIE: differential runs on generated proof objects over a toy rule set (exhaustive small shapes + random; ids != "
             "positions, negative and empty ids, forward/self/closed-block citations, nested placeholders, shared/cyclic objects, twins, "
             "compute_only, levels 0-3, extension lists with overwritten names); accept/refuse, kind of refusal and every output of an "
             "accepted run are compared, never message texts. check_proof and checked_extend are called on a Theory object that is not the "
             "global kernel.theory.thy (the global is a decoy differing on the cited names), as server/monitor.py does with snapshots. Every proof the real checker accepts (toy rules, all modes, and real primitive "
-            "rules) is judged by an independent reference checker.",
+            "rules) is judged by an independent reference checker; the replay of real-rule proofs knows which primitive rules take an "
+            "argument (a sequent handed to a rule as ARGUMENT, e.g. to implies_elim with one citation short, is a premise nobody verified; "
+            "directed and random near-miss cases). Histories: several check_proof / checked_extend calls on ONE Theory object with different "
+            "no_gaps / compute_only / check_level, with and without a ProofReport, over proofs sharing expanded macro steps (placeholders "
+            "inside expansions), every verdict judged by the reference checker as if it were the first call. The extension pool always "
+            "holds proofs that conclude nothing (ending in an empty line).",
     "note": "Trusted: Lean kernel, propext/Classical.choice/Quot.sound, the harness (generators, toy rule set implemented on both sides, "
             "reference checker, translator). The rule layer is abstract: real primitive rules and macro bodies are C01/C04. "
-            "graph_check_eq_unfolding is argued in Model.lean and tested, not proved; the theorems about the tree model therefore speak "
-            "about object graphs only through that tested agreement, the heap theorems speak about them directly. ProofReport step counters "
-            "and Proof.get_sorrys are not modelled.",
+            "graph_check_eq_unfolding is stated (GraphCheckEqUnfolding), argued in Model.lean and evaluated on every generated graph, not "
+            "proved; the theorems about the tree model therefore speak "
+            "about object graphs only through that tested agreement, the heap theorems speak about them directly. ProofReport counters are "
+            "modelled from the trace (report_counts_exact) except th_names; Proof.get_sorrys, Proof.insert_item and real macro bodies are not modelled.",
     "design_ref": "DESIGN.md 4/C02",
 }
 FINDINGS = [
